@@ -111,7 +111,9 @@ theorem decodeState_noPanic (data : Bytes) : G.NoPanic (decodeState data) := by
   apply G.noPanic_bind _ _ (unpackStatic_noPanic _ _)
   intro vs _
   split
-  · exact G.noPanic_ok _
+  · split
+    · exact G.noPanic_err _
+    · exact G.noPanic_ok _
   · exact G.noPanic_err _
 
 /-! round trips of the concrete codecs -/
@@ -162,5 +164,6 @@ theorem decodeState_encode (s : StateAtt) (hh : s.height < 2 ^ 64) (ht : s.times
   rw [this]
   simp only [List.map, G.bind_ok]
   have hle : s.timestamp / nanosPerSecond * nanosPerSecond ≤ s.timestamp := Nat.div_mul_le_self _ _
-  rw [Nat.mod_eq_of_lt (by omega)]
+  have hdiv : s.timestamp / nanosPerSecond ≤ (2 ^ 64 - 1) / nanosPerSecond := Nat.div_le_div_right (by omega)
+  rw [if_neg (by omega), Nat.mod_eq_of_lt (by omega)]
 end IbcVerif.Abi
